@@ -123,6 +123,17 @@ CLAIMED = {
                 "Symlink resolution and library behaviour are trusted. 9 sandboxed end-to-end runs under an audit hook stand in for the composition (not counted).",
         "note": "Syntactic path algebra, not an SMT proof; component contracts assumed.",
     },
+    "C12": {
+        "engines": ["S", "A", "Bd"],
+        "technique": "contract-based verification of an ordering discipline: every loop / comprehension over an unordered collection (enumerated from the AST) must iterate "
+                     "sorted(...) or have an order-insensitive body; __lt__ contracts discharged by z3 from the ASTs; call-site obligations on toposort_flatten, name "
+                     "allocation order and the removal of stale output",
+        "text": "Narrow claim. Under the semantics 'iteration over a set / glob is an arbitrary permutation', each of the 20 unordered iterations of the anchor modules is "
+                "sorted by the identifier order or commutes; the comparison methods are proved to be the identifier order; identifiers are allocated in source order of "
+                "sorted files; writeout removes the old output first. Byte identity of two runs is a whole-history statement this family cannot reach: 8 real builds under "
+                "different hash seeds and file orders stand in (not counted). Timestamps, library internals and worker scheduling are not addressed.",
+        "note": "Syntactic discipline + bounded builds; not a proof of byte identity.",
+    },
 }
 _NB = "no obligations built yet for this property in the current commit (planned in DESIGN.md section 6; technique not switched)"
-NOT_APPLICABLE = {p: _NB for p in ["C09", "C11", "C12", "C13", "C16", "C17", "C18", "C20"]}
+NOT_APPLICABLE = {p: _NB for p in ["C09", "C11", "C13", "C16", "C17", "C18", "C20"]}
